@@ -1,6 +1,7 @@
 import SstModel.Lemmas.Faulty
 import SstModel.Lemmas.FaultyScan
 import SstModel.Lemmas.MultiDamage
+import SstModel.Lemmas.FaultyWitness
 import SstModel.Props.ReaderWF
 /-
   C07 (table level) — An alteration of stored bytes confined to ONE data block never turns into a wrong
@@ -569,6 +570,102 @@ theorem C07_multi_stored_keys (w : World) (hcw : CleanWorld w tb.file img')
 
 end
 
+/-! ### non-vacuity (tests, labelled as such)
+
+  The concrete table of Lemmas/FaultyWitness.lean (three entries, three data blocks, `FT.witnessImg`) with
+  ONE byte of its second data block altered (`FT.witnessImgDamaged`: the value byte 20 at offset 22 becomes
+  21). `Damaged` is obtained from `C07_damaged_of_window`, its side conditions discharged by computation. -/
+
+/-- C07 (table level) is not vacuous: all hypotheses of `C07_scan` / `C07_get_never_wrong` /
+    `C07_multi_scan` hold simultaneously on a concrete damaged table -/
+theorem C07_nonvacuous :
+    ∃ (t : TableImg) (fv : Option Bytes) (d0 d1 d2 : DBlock) (img' : Bytes) (tb : Table) (it : TableIter)
+      (w : World),
+      defaultCmp.Lawful ∧ t.WF defaultCmp ∧ t.blocks = [d0, d1, d2] ∧ img' ≠ t.img
+        ∧ Damaged noFilterPolicy t d1 img' ∧ DamagedSet noFilterPolicy t [d1] img'
+        ∧ FilterView noFilterPolicy t fv
+        ∧ (∀ fb, fv = some fb → FilterSound noFilterPolicy t fb)
+        ∧ (∀ fb, fv = some fb → FilterBlockReader.isWellFormed fb = true)
+        ∧ Table.new ⟨defaultCmp, noFilterPolicy⟩ 0 img'.length (FT.witnessWorld img') = (w, .ok tb)
+        ∧ Opened tb t defaultCmp noFilterPolicy fv
+        ∧ CleanWorld w tb.file img' ∧ CoherentBut w tb.cacheId t d1 ∧ CoherentButSet w tb.cacheId t [d1]
+        ∧ TableIter.new tb w = (w, .ok it) ∧ SimT t tb it none
+        ∧ d0.blk.kvs = [([1], [10])] ∧ d1.blk.kvs = [([2], [20])] ∧ d2.blk.kvs = [([3, 5], [30])]
+        ∧ t.entries = [([1], [10]), ([2], [20]), ([3, 5], [30])] := by
+  obtain ⟨t, fv, tb0, it0, w0, h⟩ := FT.witness_exists
+  obtain ⟨d0, d1, d2, hbl, hdm, k0, k1, k2⟩ := FT.witness_damaged h
+  have hcw : CleanWorld (FT.witnessWorld FT.witnessImgDamaged) 0 FT.witnessImgDamaged := ⟨rfl, rfl⟩
+  obtain ⟨w1, tb, hnew, hop, hfile, _, hcw1, _, hent, _⟩ :=
+    C07_open_unaffected defaultCmp defaultCmp_lawful noFilterPolicy t h.wf fv d1 _ hdm h.fview _ 0 hcw
+  obtain ⟨it, hit, hs⟩ := iter_new_ok defaultCmp defaultCmp_lawful noFilterPolicy t h.wf fv tb hop w1
+  have hne : FT.witnessImgDamaged ≠ t.img := by
+    rw [h.img]; decide +kernel
+  refine ⟨t, fv, d0, d1, d2, FT.witnessImgDamaged, tb, it, w1, defaultCmp_lawful, h.wf, hbl, hne, hdm,
+    FT.damagedSet_of_damaged hdm, h.fview, h.sound, h.fwf, hnew, hop, hfile ▸ hcw1, ?_, ?_, hit, hs,
+    k0, k1, k2, h.entries⟩
+  · intro off c hm
+    rw [hent] at hm; cases hm
+  · intro off c hm
+    rw [hent] at hm; cases hm
+
+/-- C07 on that instance, by INSTANTIATING the general theorems (`C07_scan`, `C07_damaged_keys_error`,
+    `C07_other_stored_keys_found`): on the file with the altered byte, open succeeds, the forward scan of a
+    fresh iterator returns exactly the entries of the two intact blocks and then `none`, the lookup of the
+    damaged block's key `[2]` is `Corruption`, the lookups of `[1]` and `[3,5]` are exact -/
+theorem C07_instance :
+    ∃ (tb : Table) (it : TableIter) (w : World),
+      Table.new ⟨defaultCmp, noFilterPolicy⟩ 0 FT.witnessImgDamaged.length
+          (FT.witnessWorld FT.witnessImgDamaged) = (w, .ok tb)
+        ∧ TableIter.new tb w = (w, .ok it)
+        ∧ (∃ w' it', it.run (List.replicate 3 IterOp.next) w
+            = (w', .ok (it', [.entry (some ([1], [10])), .entry (some ([3, 5], [30])), .entry none])))
+        ∧ (∃ w', tb.get [2] w = (w', .err .corruption))
+        ∧ (∃ w', tb.get [1] w = (w', .ok (some [10])))
+        ∧ (∃ w', tb.get [3, 5] w = (w', .ok (some [30]))) := by
+  obtain ⟨t, fv, tb0, it0, w0, h⟩ := FT.witness_exists
+  obtain ⟨d0, d1, d2, hbl, hdm, k0, k1, k2⟩ := FT.witness_damaged h
+  have hcw : CleanWorld (FT.witnessWorld FT.witnessImgDamaged) 0 FT.witnessImgDamaged := ⟨rfl, rfl⟩
+  obtain ⟨w1, tb, hnew, hop, hfile, _, hcw1, _, hent1, _⟩ :=
+    C07_open_unaffected defaultCmp defaultCmp_lawful noFilterPolicy t h.wf fv d1 _ hdm h.fview _ 0 hcw
+  obtain ⟨it, hit, hs⟩ := iter_new_ok defaultCmp defaultCmp_lawful noFilterPolicy t h.wf fv tb hop w1
+  have hcw' : CleanWorld w1 tb.file FT.witnessImgDamaged := hfile ▸ hcw1
+  have hcoh : CoherentBut w1 tb.cacheId t d1 := by
+    intro off c hm
+    rw [hent1] at hm; cases hm
+  have hm0 : d0 ∈ t.blocks := by rw [hbl]; simp
+  have hm2 : d2 ∈ t.blocks := by rw [hbl]; simp
+  have hkeys : ∀ d : DBlock, d.keys = d.blk.kvs.map (·.1) := fun d => (TI.kvs_keys d.blk).symm
+  refine ⟨tb, it, w1, hnew, hit, ?_, ?_, ?_, ?_⟩
+  · obtain ⟨w', it', hrun, _⟩ :=
+      C07_scan defaultCmp defaultCmp_lawful noFilterPolicy t h.wf fv d1 _ hdm tb hop [d0] [d2]
+        (by rw [hbl]; rfl) w1 hcw' hcoh it hs
+    rw [h.entries, k1] at hrun
+    simp only [List.cons_append, List.nil_append, List.flatMap_cons, List.flatMap_nil, k0, k2,
+      List.append_nil, List.map_cons, List.map_nil] at hrun
+    exact ⟨w', it', hrun⟩
+  · exact C07_damaged_keys_error defaultCmp defaultCmp_lawful noFilterPolicy t h.wf fv d1 _ hdm tb hop
+      h.sound h.fwf w1 hcw' hcoh [2] (by rw [hkeys, k1]; simp)
+  · obtain ⟨w', hg⟩ := C07_other_stored_keys_found defaultCmp defaultCmp_lawful noFilterPolicy t h.wf fv d1 _
+      hdm tb hop h.sound h.fwf w1 hcw' hcoh d0 hm0
+      (by intro e; rw [e, k1] at k0; cases k0) [1] (by rw [hkeys, k0]; simp)
+    rw [h.entries] at hg
+    exact ⟨w', hg⟩
+  · obtain ⟨w', hg⟩ := C07_other_stored_keys_found defaultCmp defaultCmp_lawful noFilterPolicy t h.wf fv d1 _
+      hdm tb hop h.sound h.fwf w1 hcw' hcoh d2 hm2
+      (by intro e; rw [e, k1] at k2; cases k2) [3, 5] (by rw [hkeys, k2]; simp)
+    rw [h.entries] at hg
+    exact ⟨w', hg⟩
+
+/-- … and the same conclusions obtained by evaluating the model on the damaged bytes (`decide +kernel`),
+    a cross-check independent of the theorems -/
+theorem C07_instance_evaluated :
+    FT.withOpened FT.witnessImgDamaged (fun tb it w =>
+      FT.runB it (List.replicate 3 IterOp.next) w
+        [.entry (some ([1], [10])), .entry (some ([3, 5], [30])), .entry none]
+      && FT.getB tb [2] w (.err .corruption) && FT.getB tb [1] w (.ok (some [10]))
+      && FT.getB tb [3, 5] w (.ok (some [30]))) = true :=
+  FT.witness_damaged_eval
+
 end Sst
 
 #print axioms Sst.C07_block_altered
@@ -606,3 +703,6 @@ end Sst
 #print axioms Sst.C07_multi_get_right_or_error
 #print axioms Sst.C07_multi_get_never_wrong
 #print axioms Sst.C07_multi_stored_keys
+#print axioms Sst.C07_nonvacuous
+#print axioms Sst.C07_instance
+#print axioms Sst.C07_instance_evaluated
